@@ -26,7 +26,9 @@ FPU == {
   [kind |-> "D", old |-> "a", new |-> "b", ren |-> FALSE, hunks |-> <<>>, to |-> <<>>, from |-> <<0>>, nmode |-> NoMode],   \* deletion with differing names
   [kind |-> "C", old |-> NULL, new |-> "a", ren |-> FALSE, hunks |-> <<>>, to |-> <<0>>, from |-> <<>>, nmode |-> NoMode],
   [kind |-> "C", old |-> NULL, new |-> "b", ren |-> FALSE, hunks |-> <<>>, to |-> <<>>, from |-> <<>>, nmode |-> NoMode],     \* git creation of an empty file (no hunks)
-  [kind |-> "D", old |-> "b", new |-> NULL, ren |-> FALSE, hunks |-> <<>>, to |-> <<>>, from |-> <<>>, nmode |-> NoMode] }   \* git deletion of an empty file  \* re-creation under an old name
+  [kind |-> "D", old |-> "b", new |-> NULL, ren |-> FALSE, hunks |-> <<>>, to |-> <<>>, from |-> <<>>, nmode |-> NoMode],
+  \* a file patch the tool refuses with an error (its new name leaves the tree); it belongs to the worker of its old name
+  [kind |-> "E", old |-> "b", new |-> "b", ren |-> FALSE, hunks |-> <<>>, to |-> <<>>, from |-> <<>>, nmode |-> NoMode] }   \* git deletion of an empty file  \* re-creation under an old name
 
 F(cells, mode) == [ex |-> TRUE, cells |-> cells, mode |-> mode]
 TreeOf(a, b, c, e) == [p \in Paths |-> CASE p = "a" -> a [] p = "b" -> b [] p = "d/c" -> c [] p = "d/e" -> e]
